@@ -1364,11 +1364,19 @@ func (p *printer) indentList(list []ast.Expr) bool {
 	if len(list) >= 2 {
 		var b = p.lineFor(list[0].Pos())
 		var e = p.lineFor(list[len(list)-1].End())
-		if 0 < b && b < e {
+		// a lambda with a block body is always printed on several lines,
+		// whatever the source looks like
+		expands := make([]bool, len(list))
+		anyExpands := false
+		for i, x := range list {
+			expands[i] = hasBlockLambda(x)
+			anyExpands = anyExpands || expands[i]
+		}
+		if 0 < b && (b < e || anyExpands) {
 			// list spans multiple lines
 			n := 0 // multi-line element count
 			line := b
-			for _, x := range list {
+			for i, x := range list {
 				xb := p.lineFor(x.Pos())
 				xe := p.lineFor(x.End())
 				if line < xb {
@@ -1376,7 +1384,7 @@ func (p *printer) indentList(list []ast.Expr) bool {
 					// line as the previous one ended
 					return true
 				}
-				if xb < xe {
+				if xb < xe || expands[i] {
 					// x is a multi-line element
 					n++
 				}
@@ -1386,6 +1394,17 @@ func (p *printer) indentList(list []ast.Expr) bool {
 		}
 	}
 	return false
+}
+
+// hasBlockLambda reports whether x contains a lambda expression with a block body.
+func hasBlockLambda(x ast.Expr) (found bool) {
+	ast.Inspect(x, func(n ast.Node) bool {
+		if _, ok := n.(*ast.LambdaExpr2); ok {
+			found = true
+		}
+		return !found
+	})
+	return
 }
 
 func (p *printer) stmt(stmt ast.Stmt, nextIsRBrace bool) {
